@@ -7,8 +7,10 @@ D=$(readlink -f "$1"); shift
 IDS="$*"
 export MUT=${MUT:-/tmp/mutx}
 res="{"
+# ONLYB=b4 re-runs one patch and merges the result into the existing falsealarm.json
 for p in $D/b*.diff; do
   n=$(basename $p .diff)
+  [ -n "${ONLYB:-}" ] && [ "$n" != "$ONLYB" ] && continue
   out=$(TIER=${TIER:-quick} /verif/tools/mutate.sh $p $IDS 2>&1)
   echo "=== $n"; echo "$out" | grep -E "^==|^    |PATCH DOES NOT" | cut -c1-330
   j=$(echo "$out" | python3 -c "
@@ -23,4 +25,13 @@ for l in sys.stdin:
 print(json.dumps(res))")
   res="$res\"$n\": $j,"
 done
-echo "${res%,}}" | python3 -c "import sys,json; d=json.load(sys.stdin); json.dump(d,open('$D/falsealarm.json','w'),indent=1)"
+echo "${res%,}}" | python3 -c "
+import sys,json,os
+d=json.load(sys.stdin)
+f='$D/falsealarm.json'
+if os.environ.get('ONLYB') and os.path.exists(f):
+    old=json.load(open(f))
+    for k,v in d.items():
+        old.setdefault(k,{}).update(v)
+    d=old
+json.dump(d,open(f,'w'),indent=1)"
